@@ -113,7 +113,7 @@ func genLeaf(t *rapid.T, i int) leaf {
 		name = fmt.Sprintf("f%d", i)
 	}
 	l := leaf{Name: name, Exported: exported}
-	switch rapid.IntRange(0, 14).Draw(t, "leafkind") {
+	switch rapid.IntRange(0, 15).Draw(t, "leafkind") {
 	case 0:
 		l.Kind, l.Type, l.Tag = "wire", tIAll, `wire:"n1"`
 	case 1:
@@ -148,6 +148,9 @@ func genLeaf(t *rapid.T, i int) leaf {
 		}
 		l.Want = "custom:" + l.CVal
 		l.CArgs = items
+	case 15:
+		// a NAMED (not embedded) untagged struct field: nothing inside it is the container's business
+		l.Kind, l.Type, l.Tag = "none", reflect.TypeOf(NamedInner{}), ""
 	case 14:
 		// two recognised tags on one field: the value is bound first, the custom processor (Order 100) runs later and has the last word
 		l.Kind, l.Type = "custom", tString
@@ -160,6 +163,12 @@ func genLeaf(t *rapid.T, i int) leaf {
 		l.Kind, l.Type, l.Tag = "none", rapid.SampledFrom([]reflect.Type{tString, tInt, tPA, tIAll, tMap}).Draw(t, "ntype"), ""
 	}
 	return l
+}
+
+// NamedInner carries recognised tags, but is used as an ordinary named field.
+type NamedInner struct {
+	X string   `value:"lit"`
+	W zoo.IAll `wire:"n1"`
 }
 
 var sentinelPA = &zoo.PA{PCore: zoo.PCore{B: &zoo.Beh{ID: -42}}}
@@ -538,7 +547,6 @@ type dumpT struct {
 }
 
 func (d *dumpT) Fatalf(f string, a ...any) { d.failed = true; d.msg = fmt.Sprintf(f, a...); panic(d) }
-
 
 // ---- the same struct type embedded twice in one component (diamond) -----------------------------
 
